@@ -62,7 +62,7 @@ def wEndpoint : Bytes := [115, 51, 46, 117, 115, 45, 119, 101, 115, 116, 45, 49,
 /-- `static.example.com:8080`, the Host of the documentation's Upload example -/
 def wCnameHost : Bytes := exCname ++ colon :: exPort
 
-/-- the host parsers answer the bucket `static.example.com` now (before 9d4d028 the bucket was
+/-- the host parsers answer the bucket `static.example.com` now (before c922d5e the bucket was
     `static.example.com:8080`, which `check_bucket_name` refuses) … -/
 example : singleParse wEndpoint wCnameHost = some ⟨wCnameHost, some exCname⟩ := by decide
 example : multiParse [exDomain2, wEndpoint] wCnameHost = some ⟨wCnameHost, some exCname⟩ := by decide
